@@ -371,6 +371,13 @@ def _tosparse(dt, cutkind):
             img[g.random((ns, nf)) < 0.3] = 0
         m = (g.random((ns, nf)) < rnd.choice([0.0, 0.5, 1.0])).astype(np.uint8)
         cut = rnd.choice([0, 1, 50, 30000])
+        nsel = int(((m != 0) & (img > cut)).sum())
+        if dt == np.uint32 and nsel >= 1 and rnd.random() < 0.4:
+            # tosparse_u32 declares its outputs dimension(*): a caller that knows the count may pass arrays of exactly that size
+            return ({"img": L(img), "msk": L(m), "row": [nsel], "col": [nsel], "val": [nsel],
+                     "cut": cut if cutkind == "int" else float(cut), "ns": ns, "nf": nf},
+                    {"img": "in", "msk": "in", "row": "out", "col": "out", "val": "out"},
+                    {"row": ["first", 1], "col": ["first", 1], "val": ["first", 1]})
         return ({"img": L(img), "msk": L(m), "row": [ns, nf], "col": [ns, nf], "val": [ns, nf],
                  "cut": cut if cutkind == "int" else float(cut), "ns": ns, "nf": nf},
                 {"img": "in", "msk": "in", "row": "out", "col": "out", "val": "out"},
